@@ -19,6 +19,21 @@ M = {
  "CheckerBefore": ["C03", "C04", "C24"], "CheckerAfter": ["C02", "C03", "C04", "C24"], "PatternEval": ["C03", "C24"],
  "OptBefore": ["C02", "C24"], "OptAfter": ["C02", "C24"],
 }
+import json
+def fgroup(path):
+    parts = path[:-3].split("/")
+    return "F_" + "_".join(parts[-2:])
+SKIP = {"internal/runtime/compiler/parser/lexer.go", "internal/runtime/compiler/parser/parser.go", "internal/runtime/code/opcodes.go", "internal/runtime/fuzz.go"}
+for l in open(os.path.join(V, "properties.jsonl")):
+    pr = json.loads(l)
+    for f in pr["anchors"]["files"]:
+        if f.endswith(".go") and f not in SKIP:
+            M.setdefault(fgroup(f), []).append(pr["id"])
+# the syntax tree and its positions: what every compiler pass walks (C03's time bound, C24's positions)
+for g in ("F_ast_ast", "F_ast_walk", "F_position_position"):
+    M.setdefault(g, []).extend(["C03", "C24"])
+# the path fix made logstream.go part of what C16/C18/C19 rest on
+M.setdefault("F_logstream_logstream", []).extend(["C16", "C17", "C18", "C19"])
 byprop = {}
 for g, ps in M.items():
     for p in ps:
